@@ -46,14 +46,37 @@ func contentPlan(prop string, tier string, root *simcore.RNG, sinks []string, nq
 		}
 		sc := &Scenario{Prop: prop, Family: "content", Seed: r.Uint64(), Env: genEnv(r), Groups: [][]Job{{j}},
 			Sites: activeSites(r, sink, false), Sched: genSched(r, []string{"consumer", "renderer"})}
+		// a history of exports in one process: the job is preceded or followed by
+		// other exports into the same format (other sizes, the empty list among them)
+		if r.Intn(3) == 0 {
+			extra := 1 + r.Intn(2)
+			for k := 0; k < extra; k++ {
+				n2 := pick(r, []int{0, 0, 1, 2, 7, 40, 300})
+				j2 := Job{ID: 2 + k, Kind: kind, Sink: sink, N: n2, Coords: pick(r, []string{"wild", "wild-small", "index"}), CoordSeed: r.Uint64(),
+					Batches: genPartition(r, n2, 1, pick(r, []string{"small", "one", "mixed"}))}
+				if r.Intn(2) == 0 {
+					sc.Groups = append(sc.Groups, []Job{j2})
+				} else {
+					sc.Groups = append([][]Job{{j2}}, sc.Groups...)
+				}
+			}
+			for _, s2 := range sinkSites(sink) {
+				sc.Sites[s2] = 1
+			}
+		}
 		pl.scenarios = append(pl.scenarios, sc)
 	}
 	pl.nontriv = func(o *runOut) (bool, string) {
 		if o.res == nil {
 			return false, ""
 		}
-		j := &o.sc.Groups[0][0]
-		return j.N > 0, o.res.TraceHash + "/" + j.Coords
+		nz := false
+		for _, g := range o.sc.Groups {
+			for _, j := range g {
+				nz = nz || j.N > 0
+			}
+		}
+		return nz, o.res.TraceHash + "/" + o.sc.Groups[0][0].Coords
 	}
 	pl.real = []string{"render.ToSTL/To3MF/ToDXF/ToSVG streaming writers and their goroutines", "render.SaveSTL/SaveDXF/SaveSVG batch writers", "render.LoadSTL", "file system"}
 	pl.stubs = []string{"scripted producer (harness)", "goroutine scheduling choice (simulator)"}
